@@ -37,4 +37,5 @@ RULE = ('Direct calls of the real LongShortLeveragedOrderSizer through a real Si
         'Non-trivial: >= 2 assets, some non-zero weight, percentage fees; distinct = distinct input.')
 RULE += " In half of the cases the weight dict's keys are in shuffled (non-alphabetical) insertion order."
 RULE += ' 6% near-unit cases: one asset priced 6e4-5e5 whose allocation is 1.2 currency units to 5e-5 of a unit short of a whole number of units.'
+RULE += ' 8% of the cases use plain integer weights (+-1, +-2, 0).'
 ASSUMPTIONS = ['weights whose gross exposure is within 1e-8 of zero are used unscaled, as the code documents']
